@@ -97,6 +97,44 @@ pub fn candidates(line: &str) -> Vec<String> {
                 out.push(g.join("\t"));
             }
         }
+        // kinds whose request is (table, matcher, text): text-level candidates
+        "anytext" | "lex" | "damage" if f.len() >= 4 => {
+            let text = unhex(f[3]);
+            let cs: Vec<char> = text.chars().collect();
+            let mut cands: Vec<String> = vec![];
+            // replace a parenthesised group by a single operand
+            let mut stack = vec![];
+            for (i, c) in cs.iter().enumerate() {
+                if *c == '(' {
+                    stack.push(i);
+                } else if *c == ')' {
+                    if let Some(j) = stack.pop() {
+                        for rep in ["1", "x"] {
+                            let mut o: String = cs[..j].iter().collect();
+                            o.push_str(rep);
+                            o.extend(cs[i + 1..].iter());
+                            cands.push(o);
+                        }
+                        // drop the parentheses only
+                        let mut o: String = cs[..j].iter().collect();
+                        o.extend(cs[j + 1..i].iter());
+                        o.extend(cs[i + 1..].iter());
+                        cands.push(o);
+                    }
+                }
+            }
+            // delete one character
+            for i in 0..cs.len() {
+                let mut o: String = cs[..i].iter().collect();
+                o.extend(cs[i + 1..].iter());
+                cands.push(o);
+            }
+            for c in cands.into_iter().take(400) {
+                let mut g: Vec<String> = f.iter().map(|s| s.to_string()).collect();
+                g[3] = hex(&c);
+                out.push(g.join("\t"));
+            }
+        }
         _ => {}
     }
     out
